@@ -236,6 +236,14 @@ def generate(tier, rng):
         cfg = cfgs[i % len(cfgs)]
         yield udp_script(cfg, ch, i % 2 == 1, rng, "grammar udp")
         yield tcp_script(cfg, ch, i % 2 == 0, rng, "grammar tcp")
+    long_reqs = []
+    for n in (63, 64, 127, 128, 129, 255, 256, 257, 511, 512, 1023, 1024):
+        for o in (b"\xc3\xa9", b"\xe2\x82\xac", b"\xff", b"\xfe\xfd"):
+            for k in range(len(o) + 1):
+                long_reqs.append(build_request(b"GET", b"/" + b"a" * max(0, n - k - 1) + o + b"zz", b"HTTP/1.1", [(b"Host", b" a")], b"\r\n"))
+    for i, ch in enumerate(chunks(long_reqs, 24)):
+        cfg = [Cfg(level=1), Cfg(level=3, logger="console"), Cfg(level=5), Cfg(level=4, logger="logfmt")][i % 4]
+        yield (udp_script if i % 2 else tcp_script)(cfg, ch, i % 3 == 0, rng, "long-targets")
     # (2) single faults and prefixes of a few base requests
     bases = [build_request(b"GET", b"/", b"HTTP/1.1", [(b"Host", b" a")], b"\r\n"),
              build_request(b"POST", b"/x%41\xfe", b"HTTP/1.0", [], b"\n", b"body"),
